@@ -53,6 +53,16 @@ fn build_and_check(rows: usize, cols: usize, cells: &[(usize, usize)], order: &[
                 }
             }
         }
+        // overwrite every other entry with ZERO (the entry stays stored and reads as 0: "explicit zeros are not stored" would keep the old value)
+        for i in 0..rows {
+            for j in 0..cols {
+                if (i + j) % 2 == 0 {
+                    s.insert(i, j, Rat::int(0));
+                    m.insert((i, j), Rat::int(0));
+                    views_check(&s, rows, cols, &m).map_err(|e| format!("from_triplets order {:?}, then overwrite ({},{}) with zero: {}", order, i, j, e))?;
+                }
+            }
+        }
     }
     Ok(())
 }
